@@ -45,6 +45,8 @@ fn exec_caught(area: &dyn Area, lines: &[String], stats: &mut Stats) -> ExecOut 
 
 fn main() {
     let args: Vec<String> = std::env::args().collect();
+    // `pv-harness firstuse`: a fresh process whose very first uses of the default registry are made by 16 threads at once (see areas/macros.rs)
+    if args.len() == 2 && args[1] == "firstuse" { std::process::exit(if areas::macros::first_use_race() { 0 } else { 3 }); }
     if args.len() < 3 { eprintln!("usage: pv-harness run|replay <area> ..."); std::process::exit(2); }
     std::panic::set_hook(Box::new(|_| {})); // panics are outcomes, not noise
     let area = match areas::lookup(&args[2]) { Some(a) => a, None => { eprintln!("unknown area {}", args[2]); std::process::exit(2) } };
